@@ -131,8 +131,28 @@ func spilledParam(al *ssa.Alloc) *ssa.Parameter {
 	if st == nil {
 		return nil
 	}
-	p, _ := st.Val.(*ssa.Parameter)
-	return p
+	// the stored value is the parameter, or a copy of a cell that holds it (struct values
+	// bound to a local: `c := cmd`)
+	v := st.Val
+	for i := 0; i < 4; i++ {
+		if p, ok := v.(*ssa.Parameter); ok {
+			return p
+		}
+		u, ok := v.(*ssa.UnOp)
+		if !ok || u.Op != token.MUL {
+			return nil
+		}
+		src, ok := u.X.(*ssa.Alloc)
+		if !ok {
+			return nil
+		}
+		st2 := singleStoreCell(src)
+		if st2 == nil {
+			return nil
+		}
+		v = st2.Val
+	}
+	return nil
 }
 
 // immediateCall returns the call instruction that invokes closure fn right where it is
@@ -553,7 +573,7 @@ func (a *argv) indexGuarded(i, v ssa.Value, b *ssa.BasicBlock) bool {
 		} else {
 			continue
 		}
-		if other != i {
+		if !sameIndexExpr(other, i, 0) {
 			continue
 		}
 		// "i op len"
@@ -648,4 +668,26 @@ func shrinks(v ssa.Value, root *ssa.Phi, seen map[ssa.Value]bool) bool {
 		return true
 	}
 	return false
+}
+
+// sameIndexExpr: the same SSA value, or two evaluations of one expression x ± c over the
+// same x (go/ssa does not share them).
+func sameIndexExpr(a, b ssa.Value, depth int) bool {
+	if a == b {
+		return true
+	}
+	if depth > 2 {
+		return false
+	}
+	ba, ok1 := a.(*ssa.BinOp)
+	bb, ok2 := b.(*ssa.BinOp)
+	if !ok1 || !ok2 || ba.Op != bb.Op || (ba.Op != token.ADD && ba.Op != token.SUB) {
+		return false
+	}
+	ka, ok1 := ba.Y.(*ssa.Const)
+	kb, ok2 := bb.Y.(*ssa.Const)
+	if !ok1 || !ok2 || ka.Value == nil || kb.Value == nil || ka.Int64() != kb.Int64() {
+		return false
+	}
+	return sameIndexExpr(ba.X, bb.X, depth+1)
 }
